@@ -548,10 +548,20 @@ func init() {
 					jobs = append(jobs, j)
 				}
 			}
+			// the same walks in a second Readline call on the same shell
+			for _, prev := range []string{"accept", "abort", "recall", "walkend"} {
+				for _, c := range []cfg{{1, 1, 1, 3}, {2, 1, 1, 3}} {
+					j := mkJob(".ZZ_C09_Nav", shellSetup, "h", itoa(c.h), "el", itoa(c.el), "tl", itoa(c.tl), "w", itoa(c.w), "set", "nav", "prev", prev)
+					j.Stubs = paintStubs
+					j.Reach = []string{"all-steps", "first-call-returned"}
+					jobs = append(jobs, j)
+				}
+			}
 			return jobs
 		},
 		Assumptions: append([]string{
 			"history = one in-memory source (the library's type) with h symbolic entries of printable ASCII; in-progress text T of printable ASCII, cursor at its end",
+			"jobs with prev=...: an earlier Readline call on the same shell ('zq' accepted and so recorded; 'zq' interrupted; the newest entry recalled and accepted; a walk left by Ctrl-C) precedes the checked one; the entries are those the source holds afterwards",
 			"command sequences are symbolic choices over {previous/next/beginning/end-of-history} and {history-search-backward/forward, history-substring-search-backward/forward}, typed one key per read through probe bindings",
 			"end-of-history may land on the in-progress text or on the newest entry (code comment and GNU manual differ; both accepted)",
 		}, stepAssumptions[1:]...),
